@@ -467,8 +467,8 @@ class C19(Prop):
 
     def rule(self):
         return ("Real builds from /repo's working tree: cargo check --no-default-features for the empty selection, "
-                "all_msgs without std, every single message feature (both tiers, exhaustive) and "
-                "serde combinations (quick 2, thorough 12); per-feature driver builds (quick 5 seeded + suspicious rows, thorough all) "
+                "all_msgs without std, every single message feature and every single feature + serde (both tiers, exhaustive), "
+                "serde alone, std alone, seeded pairs and single + std; per-feature driver builds (quick 5 seeded + suspicious rows, thorough all) "
                 "that decode a fixed corpus (the repository's test frames of every type, five hostile payload shapes of every "
                 "supported number, MSM frames with one or both masks empty, unsupported numbers) and are compared with the full build: type n identical Debug text, every other number "
                 "MsgNotSupported. Non-trivial = distinct configurations built.")
@@ -497,8 +497,13 @@ class C19(Prop):
         # every one of them; the tiers differ in the number of serde combinations and per-feature decode drivers
         singles = list(feats)
         configs = [("", "empty")] + [("all_msgs", "all_msgs-nostd")] + [(f, "single") for f in singles]
-        serde = r.sample(feats, 12 if thorough else 2)
-        configs += [(f + ",serde", "single+serde") for f in serde] + [("serde", "serde-only")]
+        # every single feature together with serde (derives on fragments shared by few messages), serde alone, and
+        # seeded pairs / single + std (a gate that is wrong only for a combination)
+        configs += [(f + ",serde", "single+serde") for f in feats] + [("serde", "serde-only"), ("std", "std-only")]
+        for _ in range(40 if thorough else 12):
+            a, b = r.sample(feats, 2)
+            configs.append((a + "," + b, "pair"))
+        configs += [(f + ",std", "single+std") for f in r.sample(feats, 24 if thorough else 6)]
         tdir = os.path.join(ctx.root, "work", "c19-target")
         results = []
         t0 = time.time()
